@@ -29,7 +29,7 @@ def strip_closures(path):
 
 
 # library functions that are tracked like string operations: where a number is rounded to its 3-decimal text
-PSEUDO_OPS = {"svgdx::types::fstr": "fstr()"}
+PSEUDO_OPS = {"svgdx::types::fstr": "fstr()", "svgdx::expression::eval_attr": "eval_attr()"}
 
 
 def is_str_op(c):
@@ -211,3 +211,10 @@ def check_number_formatting(prog, chk):
     The places that call it are a reviewed inventory over the whole library - a new call in the middle of the pipeline
     (e.g. writing an evaluated attribute back through fstr) rounds before the constraint arithmetic instead of after."""
     return check(prog, chk, [S, "<" + S], "a number on its way to the output (3-decimal rounding)", ops={"fstr()"}, rule="A14.number-formatting")
+
+
+def check_evaluation_sites(prog, chk):
+    """eval_attr() substitutes variables and evaluates `{{..}}` in a string: the places that call it are a reviewed
+    inventory over the whole library.  A new call evaluates something a second time (random numbers drawn twice) or
+    evaluates what should be carried verbatim (a comment, a condition that is an expression already)."""
+    return check(prog, chk, [S, "<" + S], "a string that is evaluated (variables substituted, expressions computed)", ops={"eval_attr()"}, rule="A14.evaluation-sites")
